@@ -209,25 +209,40 @@ class Concatenation(Regex):
         return f"{self.lhs}{self.rhs}"
 
 
+def alternatives(expr):
+    """Give the operands of nested logical ors as a flat list"""
+    if isinstance(expr, LogicalOr):
+        return alternatives(expr.lhs) + alternatives(expr.rhs)
+    else:
+        return [expr]
+
+
 def logical_or(left, right):
     """Perform logical or, but in a smart way
     so that we only construct a logical or when we need to.
 
-    This implements the weaker notion of RE equivalence.
+    This implements the weaker notion of RE equivalence: nested
+    alternatives are flattened, symbol sets are merged and each
+    alternative is taken once. LogicalOr ignores the order of the
+    alternatives when it is compared, so (r|s)|r, r|(s|r) and s|r
+    are the same expression. An expression has a finite number of
+    derivatives only modulo these rules.
     """
-    if isinstance(left, SymbolSet) and isinstance(right, SymbolSet):
-        return SymbolSet(left.symbols | right.symbols)
+    symbols = NULL.symbols
+    operands = []
+    for operand in alternatives(left) + alternatives(right):
+        if isinstance(operand, SymbolSet):
+            symbols = symbols | operand.symbols
+        elif operand not in operands:
+            operands.append(operand)
 
-    if left == right:
-        return left
+    if symbols or not operands:
+        operands.insert(0, SymbolSet(symbols.ranges))
 
-    if left == NULL:
-        return right
-
-    if right == NULL:
-        return left
-
-    return LogicalOr(left, right)
+    expr = operands.pop()
+    while operands:
+        expr = LogicalOr(operands.pop(), expr)
+    return expr
 
 
 class LogicalOr(Regex):
@@ -264,7 +279,7 @@ class LogicalOr(Regex):
         )
 
     def orderby(self):
-        return self.__class__.__name__, self.lhs, self.rhs
+        return self.__class__.__name__, frozenset(alternatives(self))
 
     def __str__(self):
         return f"({self.lhs})|({self.rhs})"
